@@ -5,6 +5,7 @@ import (
 	"encoding/binary"
 	"encoding/json"
 	"fmt"
+	"github.com/multiformats/go-multihash"
 	"io"
 	"math"
 
@@ -332,7 +333,7 @@ func runC13(t *mon.T, raw json.RawMessage) {
 			in := append([]byte{}, file...)
 			var class string
 			reject := true
-			switch r.Intn(11) {
+			switch r.Intn(12) {
 			case 0, 1: // flip inside data or digest
 				if len(a.Payload.Sections) == 0 {
 					continue
@@ -389,6 +390,50 @@ func runC13(t *mon.T, raw json.RawMessage) {
 					t.Violatef("Inspect(true)/"+class+"/rejected", "Inspect rejects an archive whose index offset points at a readable codec varint: %v", ierr)
 				} else if uint64(st.IndexCodec) != v {
 					t.Violatef("Inspect(true)/"+class+"/stats:IndexCodec", "IndexCodec %d, varint at the index offset is %d", st.IndexCodec, v)
+				}
+				t.Cover("typed:" + class)
+				continue
+			case 11: // two blocks under the one hash function whose digest length is the caller's choice (blake3), shorter first
+				if a.Version == 2 || cfg.ZeroEOF {
+					continue
+				}
+				okB3 := true
+				for _, dl := range []int{32, 64, 20} {
+					data := gen.Bytes(r, 10+r.Intn(40))
+					mh, err := multihash.Sum(data, multihash.BLAKE3, dl)
+					if err != nil {
+						okB3 = false // no blake3 in this build of go-multihash: class not available
+						break
+					}
+					in = append(in, refcar.EncodeSection(refcar.MakeCidV1(0x55, 0x1e, mh[len(mh)-dl:]), data)...)
+				}
+				if !okB3 {
+					continue
+				}
+				reject = false
+				class = "blake3-digests-of-several-lengths"
+				a2, err := refcar.Decode(in, false)
+				if err != nil {
+					panic(err)
+				}
+				// the verifying scan decides (the reference has no blake3): it accepts, so must Inspect
+				scanOK := false
+				if br, berr := carv2.NewBlockReader(bytes.NewReader(in)); berr == nil {
+					for {
+						if _, nerr := br.Next(); nerr == io.EOF {
+							scanOK = true
+							break
+						} else if nerr != nil {
+							break
+						}
+					}
+				}
+				st, ierr := inspect(in, true)
+				t.Events(1)
+				if scanOK != (ierr == nil) {
+					t.Violatef("Inspect(true)/"+class+"/verdict-differs-from-scan", "a verifying scan says ok=%v, Inspect(true) says %v", scanOK, ierr)
+				} else if ierr == nil {
+					c13Compare(t, class, st, c13RefStats(a2), a2)
 				}
 				t.Cover("typed:" + class)
 				continue
